@@ -158,6 +158,8 @@ pub struct ConvCfg {
     pub version: bool,
     /// prefer a command tree over positionals
     pub force_cmds: bool,
+    /// levels sometimes carry `fallback_to_usage()`
+    pub usage_fallback: bool,
 }
 
 impl Default for ConvCfg {
@@ -172,6 +174,7 @@ impl Default for ConvCfg {
             typed: true,
             version: false,
             force_cmds: false,
+            usage_fallback: false,
         }
     }
 }
@@ -415,6 +418,9 @@ pub fn gen_conv_level(u: &mut Un, names: &mut Names, cfg: &ConvCfg, depth: usize
     let mut info = InfoSpec::default();
     if cfg.version && depth == 0 && u.chance(128) {
         info.version = Some("1.2.3".into());
+    }
+    if cfg.usage_fallback && u.chance(60) {
+        info.fallback_to_usage = true;
     }
     Level {
         body: Node::Seq(fields),
